@@ -164,12 +164,11 @@ def exc_name(e):
     return type(e).__name__
 
 
-def observe(case: Case):
-    m, b, toks, _ = L.build(case)
-    rows = {n: L.row_of(m, n) for n in case.toks}
+def observe_bar(m, b, names):
+    rows = {n: L.row_of(m, n) for n in names}
     obs = {"S0": L.raw(m), "W0": L.wallet_of(b), "rows": rows, "state": L.dump(m), "snaps": [], "attempts": [], "attempt_states": [], "exc": None}
     m._record_action_callback = lambda a: obs["snaps"].append((a, L.raw(m)))
-    orig = m._do_liquidate
+    orig = type(m)._do_liquidate.__get__(m)
 
     def wrapped(c, d, v):
         obs["attempts"].append((getattr(c, "name", None), getattr(d, "name", None)))
@@ -192,6 +191,33 @@ def observe(case: Case):
     except Exception:               # noqa: BLE001
         pass
     return obs
+
+
+def observe(case: Case, path=()):
+    """one observation per bar: the case's own bar, then every bar of `path` (token data of later bars) on the same market"""
+    m, b, toks, _ = L.build(case)
+    out = [observe_bar(m, b, list(case.toks))]
+    for t in path:
+        if out[-1]["exc"] is not None:
+            break
+        L.set_bar(m, t)
+        out.append(observe_bar(m, b, list(case.toks)))
+    return out
+
+
+def gen_path(rng, case: Case):
+    """later bars: collateral prices fall, debt prices rise, indices grow"""
+    path, cur = [], case.toks
+    colls = {s[0] for s in case.supplies if s[2]}
+    for _ in range(rng.randint(1, 3)):
+        nxt = {}
+        for n, t in cur.items():
+            f = D(rng.randint(55, 104)) / 100 if n in colls else D(rng.randint(97, 135)) / 100
+            nxt[n] = {"li": str(D(t["li"]) * (1 + D(rng.randint(0, 5000)) / 10 ** 6)), "bi": str(D(t["bi"]) * (1 + D(rng.randint(0, 9000)) / 10 ** 6)),
+                      "p": str((D(t["p"]) * f).normalize())}
+        path.append(nxt)
+        cur = nxt
+    return path
 
 
 def sane_rows(rows, S):
@@ -324,16 +350,21 @@ def end_reason(obs):
     return "all-visited"
 
 
-def check_case(ctx: Ctx, case: Case, stream, tag, reqs):
-    obs = observe(case)
-    rep = {"case": case.to_json(), "stream": stream, "tag": tag}
-    steps = "".join(("h" if a.health_factor_before > D("0.95") else "f") + ("c" if len([s for s in Q["supplies"] if s[0] == a.collateral_token]) == 0 else "u")
-                    for a, Q in obs["snaps"])
-    key = f"{stream}:{tag}:c{sum(1 for s in case.supplies if s[2])}d{len(case.debts)}:{steps or '-'}:{end_reason(obs)}:{obs['exc'] or 'ok'}"
-    ctx.case(key, rep)
-    for k, what in oracle(ctx, case, obs, tag):
-        ctx.violate(k, what, rep)
-    reqs.append((rep, obs))
+def check_case(ctx: Ctx, case: Case, stream, tag, reqs, path=()):
+    allobs = observe(case, path)
+    rep = {"case": case.to_json(), "stream": stream, "tag": tag, "path": list(path)}
+    found = []
+    for k, obs in enumerate(allobs):
+        steps = "".join(("h" if a.health_factor_before > D("0.95") else "f") + ("c" if len([s for s in Q["supplies"] if s[0] == a.collateral_token]) == 0 else "u")
+                        for a, Q in obs["snaps"])
+        key = (f"{stream}{'+bar' + str(k) if k else ''}:{tag if not k else 'later'}:c{sum(1 for s in obs['S0']['supplies'] if s[2])}d{len(obs['S0']['debts'])}:"
+               f"{steps or '-'}:{end_reason(obs)}:{obs['exc'] or 'ok'}")
+        ctx.case(key, rep)
+        for kk, what in oracle(ctx, case, obs, tag):
+            ctx.violate(kk, what if not k else f"(bar {k} of a price path) {what}", rep)
+            found.append((kk, what))
+        reqs.append((rep, obs))
+    return found
 
 
 def compare(ctx: Ctx, rep, obs, ans):
@@ -378,8 +409,9 @@ def run(ctx: Ctx):
         r = ctx.rng.random()
         stream = "random" if r < 0.6 else ("boundary" if r < 0.8 else "special")
         case, tag = gen_case(ctx.rng, stream)
-        check_case(ctx, case, stream, tag, reqs)
-    ctx.impl_traces = n
+        path = gen_path(ctx.rng, case) if stream == "random" and ctx.rng.random() < 0.3 else ()
+        check_case(ctx, case, stream, tag, reqs, path)
+    ctx.impl_traces = len(reqs)
     if ctx.driver_ok:
         out = driver_json([{"fn": "liquidate", "ctx": "py", "state": obs["state"]} for _, obs in reqs], exe="driver_aaverisk")
         for (rep, obs), ans in zip(reqs, out):
@@ -406,8 +438,7 @@ def run(ctx: Ctx):
 
 def replay(ctx: Ctx, case) -> bool:
     c = Case.from_json(case["case"])
-    obs = observe(c)
-    v = oracle(Ctx(ctx.prop, ctx.tier, ctx.seed, False), c, obs, case.get("tag"))
+    v = check_case(Ctx(ctx.prop, ctx.tier, ctx.seed, False), c, case.get("stream", "random"), case.get("tag"), [], case.get("path") or ())
     for k, what in v:
         print("  ", k, what)
     return not v
